@@ -505,6 +505,11 @@ func c16Run(r *Run, h int) {
 		fail("reconnect", diffLines(got, want), "cache = database on monitored tables", "after reconnecting the cache does not converge to the database", known)
 		return
 	}
+	if why := cacheIndexesConsistent(a, ts.Spec, tablesOf(cols)); why != "" {
+		fail("reconnect", why, "the cache's indexes hold its rows and nothing else",
+			"after reconnecting, the indexes of the cache do not match its rows: a lookup by index values finds rows that are gone, or misses rows that are there", "")
+		return
+	}
 	// the protocol model, started from the stale cache the client had when it was cut off; only when no
 	// further cut hit the sessions after the modelled one
 	if modelled && len(cs.Cuts) == 1 && (cs.Cuts[0].After < 0 || px.sessionCount() <= 3) {
